@@ -13,11 +13,11 @@
 (***************************************************************************)
 EXTENDS SQValues
 
-CONSTANT Deviations
+CONSTANTS Deviations,
+          Cap      \* the container size cap (MAX_ARRAY_SIZE = 10000 in the code; small in exhaustive models of the cap logic)
 
 Dev(d) == d \in Deviations
 
-Cap == 10000
 
 R(h, r) == [h |-> h, r |-> r]
 
@@ -58,8 +58,7 @@ GuardedMul(a, b) ==
     IF ~IsNum(a) \/ ~IsNum(b) THEN ParserErr
     ELSE DecRes(DecMul(AsDec(a), AsDec(b), Prec))
 
-RECURSIVE RepeatSeq(_, _)
-RepeatSeq(s, n) == IF n <= 0 THEN <<>> ELSE s \o RepeatSeq(s, n - 1)
+RepeatSeq(s, n) == IF n <= 0 \/ Len(s) = 0 THEN <<>> ELSE [i \in 1..(n * Len(s)) |-> s[((i - 1) % Len(s)) + 1]]
 
 \* native a * b as Python computes it (only reachable through *= in the shipped code)
 NativeMul(h, a, b) ==
@@ -127,20 +126,17 @@ PowExactOrNone(a, b) ==
 CmpRes(x) == IF x = U3 THEN Unspec("comparison") ELSE IF x = TY3 THEN TypeErr ELSE Bool(x = T3)
 NotRes(r) == IF IsVal(r) THEN Bool(~r.b) ELSE r
 
-RECURSIVE SubAt(_, _, _)
 \* p occurs in s at position i (1-based)
 SubAt(s, p, i) == i + Len(p) - 1 <= Len(s) /\ \A j \in 1..Len(p) : s[i + j - 1] = p[j]
 \* first position >= from where p occurs in s, 0 if none
-RECURSIVE FindFrom(_, _, _)
-FindFrom(s, p, from) == IF from + Len(p) - 1 > Len(s) THEN 0
-                        ELSE IF SubAt(s, p, from) THEN from ELSE FindFrom(s, p, from + 1)
+FindFrom(s, p, from) == LET S == {i \in from..(Len(s) - Len(p) + 1) : SubAt(s, p, i)} IN
+                        IF S = {} THEN 0 ELSE CHOOSE i \in S : \A k \in S : i <= k
 
-RECURSIVE AnyEq(_, _, _, _)
-\* first index i with xs[i] == v (Python: identity or equality); 0 none; -1 unspec
+\* first index i with xs[i] == v (Python: identity or equality); 0 none; -1 unspec.  Not recursive over the elements.
 AnyEq(h, xs, v, i) ==
-    IF i > Len(xs) THEN 0
-    ELSE LET e == Eq(h, xs[i], v) IN
-         IF e = U3 THEN -1 ELSE IF e = T3 THEN i ELSE AnyEq(h, xs, v, i + 1)
+    LET S == {j \in i..Len(xs) : Eq(h, xs[j], v) # F3} IN
+    IF S = {} THEN 0
+    ELSE LET j == CHOOSE j \in S : \A k \in S : j <= k IN IF Eq(h, xs[j], v) = U3 THEN -1 ELSE j
 
 Hashable(v) == v.t \in {"none", "bool", "dec", "int", "float", "str", "lambda", "builtin", "hostfn"}
                \/ (v.t = "tuple" /\ \A i \in 1..Len(v.items) : v.items[i].t \in {"none", "bool", "dec", "int", "float", "str"})
@@ -489,6 +485,7 @@ BI_float(v) ==
       [] v.t = "opaque" -> Unspec("opaque")
       [] OTHER -> TypeErr
 
+LongSeq == 2500       \* element-wise recursive operators are specified up to this length (left-domain beyond)
 RECURSIVE FoldSum(_, _, _, _)
 FoldSum(h, xs, i, acc) ==
     IF i > Len(xs) THEN R(h, acc)
@@ -518,12 +515,16 @@ BI_minmax(h, isMax, args) ==
 Arg(args, i, dflt) == IF Len(args) >= i THEN args[i] ELSE dflt
 ArityErr == TypeErr
 
+\* operands too long for the element-wise recursive operators of this specification (left-domain)
+TooLong(h, v) == CASE v.t = "str" -> Len(v.s) > LongSeq [] v.t \in {"list", "dict"} -> LenOf(h, v) > LongSeq [] v.t = "tuple" -> Len(v.items) > LongSeq [] OTHER -> FALSE
 CallAtomic(h, name, args) ==
   LET n == Len(args)
       a1 == Arg(args, 1, None)  a2 == Arg(args, 2, None)  a3 == Arg(args, 3, None)  a4 == Arg(args, 4, None)
       AnyOpaque == \E i \in 1..n : args[i].t = "opaque"
   IN
   IF AnyOpaque THEN R(h, Unspec("opaque argument"))
+  ELSE IF name \in {"join", "pretty", "split", "replace", "min", "max", "str", "strip", "lower", "upper"} /\ \E i \in 1..n : TooLong(h, args[i])
+  THEN R(h, Unspec("operand too long for the specification's sequence functions"))
   ELSE
   CASE name = "len" ->
         IF n # 1 THEN R(h, ArityErr)
@@ -602,7 +603,8 @@ CallAtomic(h, name, args) ==
                  al == Alloc(h, NewList(xs)) IN R(al.h, ListRef(al.a))
     [] name = "sum" ->
         IF n # 1 THEN R(h, ArityErr)
-        ELSE IF a1.t = "list" THEN FoldSum(h, Items(h, a1), 1, NatInt(0)) ELSE R(h, a1)
+        ELSE IF a1.t = "list" THEN (IF LenOf(h, a1) > LongSeq THEN R(h, Unspec("sum of a very long list")) ELSE FoldSum(h, Items(h, a1), 1, NatInt(0)))
+        ELSE R(h, a1)
     [] name = "get" ->
         IF n < 2 \/ n > 3 THEN R(h, ArityErr)
         ELSE LET k2 == KeyCast(h, a1, a2) IN
